@@ -1,7 +1,7 @@
 """C04 configuration for ./check (keys: see checks/propcfg.py)."""
 CFG = {
     "modules": ["VaxisModel.Props.C04"],
-    "extractors": ["C04", "C07"],
+    "extractors": ["C04", "C07", "C18", "C11", "C01"],
     "drivers": ["C04"],
     "stateful": True,
     "trivial_prefix": ("-",),
